@@ -130,7 +130,9 @@ def graph_is_in_seg_bounds(
         for i, ax in enumerate(axes):
             max_bound = ax.max
             if max_bound is not None:
-                if seg_shape[i] * scale[i] <= max_bound:
+                # `not max < extent` (rather than `extent <= max`) also reports a NaN
+                # maximum or a NaN extent, for which every comparison is False
+                if not max_bound < seg_shape[i] * scale[i]:
                     errors.append(
                         f"Graph axis {i} is out of bounds with value {max_bound} in "
                         f"segmentation axis size {seg_shape[i]} and scale factor "
